@@ -60,10 +60,10 @@ theorem setFields_ok (c : ClassSpec) (valid) (fg : Bool) (l : List (String × JV
         · simp only [List.contains_eq_mem, hk, decide_true, if_true, hv] at h
           simpa [knownOnly, List.filter_cons, hk] using ih _ h
         · simp [hk, hv] at h
-      · by_cases ha : (!c.strictFields && c.attrs.contains k) = true
+      · by_cases ha : c.strictFields = false ∧ k ∈ c.attrs
         · simp [hk, ha] at h
         · cases fg
           · simp [hk, ha] at h
-          · simp only [List.contains_eq_mem, hk, ha, decide_false, if_true] at h
-            simpa [knownOnly, List.filter_cons, hk] using ih _ (by simpa using h)
+          · simp [hk, ha] at h
+            simpa [knownOnly, List.filter_cons, hk] using ih _ h
 end FimVerif.Codec
